@@ -312,12 +312,17 @@ func checkMatRoundTrip(c matCase) *vk.Failure {
 		}
 		var n int
 		var err error
+		var empty bool
+		var left string
 		if c.Vec {
 			var got mat.VecDense
 			n, err = got.UnmarshalBinaryFrom(rd)
+			empty, left = got.IsEmpty(), fmt.Sprintf("a vector of length %d", got.Len())
 		} else {
 			var got mat.Dense
 			n, err = got.UnmarshalBinaryFrom(rd)
+			gr, gc := got.Dims()
+			empty, left = got.IsEmpty(), fmt.Sprintf("a %dx%d matrix", gr, gc)
 		}
 		what := fmt.Sprintf("%s %dx%d UnmarshalBinaryFrom, input cut after %d of %d bytes (reader kind %d, eof=%v)", kind, r, cc, k, len(want), c.ReaderKind, trunc)
 		if err == nil {
@@ -331,6 +336,9 @@ func checkMatRoundTrip(c matCase) *vk.Failure {
 		}
 		if n != k {
 			return vk.Failf("unmarshalfrom-error-count", "%s returned n=%d", what, n)
+		}
+		if !empty {
+			return vk.Failf("unmarshalfrom-error-leaves-nonempty-receiver", "%s returned err=%v and left the receiver as %s holding the elements read so far followed by unspecified values; a failed decode must not deliver a value (UnmarshalBinary leaves the receiver empty), and the receiver now makes a retry panic", what, err, left)
 		}
 	}
 	return nil
@@ -568,6 +576,19 @@ func checkMatBytes(c matBytesCase) *vk.Failure {
 	}
 	if reason == "" {
 		return vk.Failf("rejects-valid", "%s: valid encoding rejected: %v", what, err)
+	}
+	// a failed decode delivers no value: the receiver is still empty (and can be
+	// used for another attempt, which panics on a non-empty receiver)
+	if c.Vec && !v.IsEmpty() || !c.Vec && !d.IsEmpty() {
+		r, cc := d.Dims()
+		if c.Vec {
+			r, cc = v.Dims()
+		}
+		key := "error-leaves-nonempty-receiver"
+		if stream && reason == "short-data" {
+			key = "stream-error-leaves-nonempty-receiver" // element data cut short after a complete header
+		}
+		return vk.Failf(key, "%s: err=%v, but the receiver is now %dx%d and not empty: it holds the elements read so far followed by unspecified values, and a second Unmarshal into it panics", what, err, r, cc)
 	}
 	if stream {
 		// the count never exceeds the input and covers the header when it was complete
